@@ -308,6 +308,16 @@ func (c17) Run(e *Env) {
 		})
 	})
 	obs, _ := Snapshot(flushed)
+	{
+		nk := map[string]int{}
+		for _, o := range obs {
+			nk[o.Kind]++
+			if o.Kind == "timer" && o.Timer.Histogram != nil {
+				nk["hist"]++
+			}
+		}
+		e.State("kind=%s batch=%d compress=%v masked=%v pcts=%d histlimit=%d counters=%d gauges=%d timers=%d hist=%d sets=%d", kind, spec.BatchSize, spec.Compress, spec.Disabled != gostatsd.TimerSubtypes{}, len(pcts), histLimit, nk["counter"], nk["gauge"], nk["timer"], nk["hist"], nk["set"])
+	}
 	e.Event("cfg kind=%s batch=%d compress=%v disabled=%+v pcts=%v histlimit=%d series=%d", kind, spec.BatchSize, spec.Compress, spec.Disabled, pcts, histLimit, len(obs))
 	e.Event("map %s", CanonObs(obs))
 	if len(obs) == 0 {
